@@ -21,7 +21,7 @@ pub enum Fault {
 
 const LOG_CAP: usize = 8192;
 /// Requests above this size are always refused while recording (nothing huge is ever touched).
-pub const HUGE: usize = 1 << 28;
+pub const HUGE: usize = 1 << 25;
 /// More refusals than this inside one crate call = the call does not terminate.
 pub const HANG_REFUSALS: u64 = 300_000;
 
